@@ -485,6 +485,8 @@ class Compiler:
             if not operands:
                 raise CompilationError('coalesce() function requires at least one argument', node)
             for operand in operands:
+                if operand.dtype is types.Asterisk:
+                    raise CompilationError('coalesce() function arguments cannot be "*"', node)
                 if operand.dtype != operands[0].dtype:
                     dtypes = ', '.join(operand.dtype.__name__ for operand in operands)
                     raise CompilationError(f'coalesce() function arguments must have uniform type, found: {dtypes}', node)
